@@ -92,7 +92,7 @@ def FLOORS(tier):
         'biglist_variants': 2 if q else 4,
         'biglist_resumes': 1 if q else 6,
         # driven through step() (not run()) with two or more intermediate-producing steps of one kind (GVCF / dataset) in one process
-        'stepped_runs_with_2+_intermediate_steps_of_one_kind': 2200 if q else 20000,
+        'stepped_runs_with_2+_intermediate_steps_of_one_kind': 2200 if q else 80000,
     }
 
 
@@ -1274,3 +1274,11 @@ def run(ctx):
 # With `value = max(1, limit // len(intervals))` in the setter (scratch worktree, VERIF_REPO): HELD on quick seeds 0..4 and thorough seed 0,
 # all floors reached.  Cost: ~8 s to build the list, ~7 s per GVCF step, ~8 s per save, ~15 s per load with 150 001 intervals, hence one case per
 # shard in the quick tier (the four variants rotate over the shards), two in the thorough tier.
+#
+# C38-agent11 (_job_id incremented in run() instead of step(): stepping through step(), every intermediate of one kind gets one path) made the
+# check HANG (watchdog, INCONCLUSIVE): with two queue entries on one path every merge of them doubled the provenance tuple in the engine fake
+# (up to 300 dataset steps in the tasklimit phase).  Now: after every step of every driving loop the queue is checked (Harness.queue_check):
+#   merge/intermediate-overwritten-while-queued   two queue entries share one path (the run continues to the final dataset: input-lost / -duplicated)
+#   merge/input-duplicated                        a queued intermediate holds more than 2 * #inputs + 8 columns (the run is abandoned there)
+# and the real run() of the runcrash phase is bounded through a counting wrapper around step() (termination/step-bound-exceeded).
+# Scratch worktree, quick, seed 0: exit 1 in ~65 s per shard with all three keys; unchanged tree HELD (quick seeds 0..4, thorough seed 0).
